@@ -1,0 +1,113 @@
+//go:build verif
+
+package stl
+
+// Contracts for the deductive checks in /verif (comment-only; compiled only with -tags verif).
+// Property C07: binary STL size law 84 + 50*n, per-record content, read-back.
+// Ghost I/O state (assumed library contracts, see /verif/engine iospec.go): written(w), consumed(r),
+// total(r), lastInt(x), lastSlice(x) = last integer / slice moved by encoding/binary through x.
+
+//@ func Vec.Zero pure
+//@   props C07
+//@ func Vec.Float64 pure
+//@   props C07
+
+//@ spec emitted(w io.Writer) []Triangle = lastSlice(w)
+//@ spec provided(r io.Reader) []Triangle = lastSlice(r)
+
+//@ func Write
+//@   props C07
+//@   requires len(bin.Triangles) < 4294967296
+//@   returns err
+//@   ensures size_law: err == nil ==> written(out) == old(written(out)) + 84 + 50 * len(bin.Triangles)
+//@   ensures count_field: err == nil ==> lastInt(out) == len(bin.Triangles)
+//@   ensures records: err == nil ==> emitted(out) == bin.Triangles
+
+//@ spec pos(m modeling.Mesh, k int) vector3.Float64 = m.v3Data["Position"][m.indices[k]]
+//@ spec nrm(m modeling.Mesh, k int) vector3.Float64 = m.v3Data["Normal"][m.indices[k]]
+//@ spec vecIs(v Vec, p vector3.Float64) bool = v.X == f32(p.X()) && v.Y == f32(p.Y()) && v.Z == f32(p.Z())
+//@ spec meanNormal(m modeling.Mesh, i int) vector3.Float64 = nrm(m, 3*i).Add(nrm(m, 3*i+1)).Add(nrm(m, 3*i+2)).DivByConstant(3.0).Normalized()
+
+//@ func WriteMesh
+//@   props C07
+//@   requires tri_multiple: len(m.indices) % 3 == 0 && len(m.indices) / 3 < 4294967296
+//@   requires pos_in_range: has(m.v3Data, "Position") ==> modeling.idxInRange(m, len(m.v3Data["Position"]))
+//@   requires nrm_in_range: has(m.v3Data, "Normal") ==> modeling.idxInRange(m, len(m.v3Data["Normal"]))
+//@   returns err
+//@   ensures size_law: err == nil && has(m.v3Data, "Position") ==> written(out) == old(written(out)) + 84 + 50 * (len(m.indices) / 3)
+//@   ensures no_positions_empty_file: err == nil && !has(m.v3Data, "Position") ==> written(out) == old(written(out)) + 84
+//@   ensures count_field: err == nil && has(m.v3Data, "Position") ==> lastInt(out) == len(m.indices) / 3
+//@   ensures record_count: err == nil && has(m.v3Data, "Position") ==> len(emitted(out)) == len(m.indices) / 3
+//@   ensures corners: err == nil && has(m.v3Data, "Position") ==> forall i int :: 0 <= i && i < len(m.indices) / 3 ==>
+//@       vecIs(emitted(out)[i].Vertex1, pos(m, 3*i)) && vecIs(emitted(out)[i].Vertex2, pos(m, 3*i+1)) && vecIs(emitted(out)[i].Vertex3, pos(m, 3*i+2))
+//@   ensures facet_normal_is_normalised_mean: err == nil && has(m.v3Data, "Position") && has(m.v3Data, "Normal") ==>
+//@       forall i int :: 0 <= i && i < len(m.indices) / 3 ==> vecIs(emitted(out)[i].Normal, meanNormal(m, i))
+//@   ensures no_normals_zero: err == nil && has(m.v3Data, "Position") && !has(m.v3Data, "Normal") ==>
+//@       forall i int :: 0 <= i && i < len(m.indices) / 3 ==> emitted(out)[i].Normal.X == 0 && emitted(out)[i].Normal.Y == 0 && emitted(out)[i].Normal.Z == 0
+//@   loop 1:
+//@     invariant bounds: 0 <= i && i <= count && count == len(m.indices) / 3 && len(tris) == count && fresh(tris) && off(tris) == 0
+//@     invariant corners: forall k int :: 0 <= k && k < i ==>
+//@       vecIs(tris[k].Vertex1, pos(m, 3*k)) && vecIs(tris[k].Vertex2, pos(m, 3*k+1)) && vecIs(tris[k].Vertex3, pos(m, 3*k+2))
+//@     invariant normals_zero: forall k int :: 0 <= k && k < count ==> tris[k].Normal.X == 0 && tris[k].Normal.Y == 0 && tris[k].Normal.Z == 0
+//@   loop 2:
+//@     invariant bounds: 0 <= i && i <= count && count == len(m.indices) / 3 && len(tris) == count && fresh(tris) && off(tris) == 0
+//@     invariant corners: forall k int :: 0 <= k && k < count ==>
+//@       vecIs(tris[k].Vertex1, pos(m, 3*k)) && vecIs(tris[k].Vertex2, pos(m, 3*k+1)) && vecIs(tris[k].Vertex3, pos(m, 3*k+2))
+//@     invariant normals_done: forall k int :: 0 <= k && k < i ==> vecIs(tris[k].Normal, meanNormal(m, k))
+
+// ---- reader ------------------------------------------------------------------------------------------
+//@ func Read
+//@   props C07 C14
+//@   modifies ghost consumed, ghost lastSlice, ghost lastInt
+//@   returns bin, err
+//@   ensures non_nil: err == nil ==> bin != nil
+//@   ensures complete: err == nil ==> consumed(in) == old(consumed(in)) + 84 + 50 * len(bin.Triangles) && consumed(in) <= total(in)
+//@   ensures count: err == nil ==> len(bin.Triangles) == lastInt(in)
+//@   ensures records: err == nil ==> bin.Triangles == provided(in)
+//@   ensures failure_returns_nothing: err != nil ==> bin == nil
+
+//@ spec vecF64(v Vec) vector3.Float64 = vector3.New(real(v.X), real(v.Y), real(v.Z))
+//@ spec flatNormal(t Triangle) vector3.Float64 = t.Vertex2.Float64().Sub(t.Vertex1.Float64()).Cross(t.Vertex3.Float64().Sub(t.Vertex1.Float64())).Normalized()
+//@ spec recordNormal(t Triangle) vector3.Float64 = t.Normal.Zero() ? flatNormal(t) : t.Normal.Float64()
+
+//@ func ReadMesh
+//@   props C07 C14
+//@   modifies ghost consumed, ghost lastSlice, ghost lastInt
+//@   returns mesh, err
+//@   ensures non_nil: err == nil ==> mesh != nil
+//@   ensures whole_file_present: err == nil ==> consumed(in) == old(consumed(in)) + 84 + 50 * len(provided(in)) && consumed(in) <= total(in)
+//@   ensures triangle_topology: err == nil ==> mesh.topology == modeling.TriangleTopology
+//@   ensures three_indices_per_record: err == nil ==> len(mesh.indices) == 3 * len(provided(in))
+//@   ensures identity_indices: err == nil ==> forall k int :: 0 <= k && k < len(mesh.indices) ==> mesh.indices[k] == k
+//@   ensures position_count: err == nil && len(provided(in)) > 0 ==> len(mesh.v3Data["Position"]) == 3 * len(provided(in))
+//@   ensures positions: err == nil ==> forall i int :: 0 <= i && i < len(provided(in)) ==>
+//@       mesh.v3Data["Position"][3*i] == provided(in)[i].Vertex1.Float64() &&
+//@       mesh.v3Data["Position"][3*i+1] == provided(in)[i].Vertex2.Float64() &&
+//@       mesh.v3Data["Position"][3*i+2] == provided(in)[i].Vertex3.Float64()
+//@   ensures normals_present_iff_some_stored: err == nil ==>
+//@       (has(mesh.v3Data, "Normal") <==> exists i int :: 0 <= i && i < len(provided(in)) && !provided(in)[i].Normal.Zero())
+//@   ensures normals: err == nil && has(mesh.v3Data, "Normal") ==> forall i int :: 0 <= i && i < len(provided(in)) ==>
+//@       mesh.v3Data["Normal"][3*i] == recordNormal(provided(in)[i]) &&
+//@       mesh.v3Data["Normal"][3*i+1] == recordNormal(provided(in)[i]) &&
+//@       mesh.v3Data["Normal"][3*i+2] == recordNormal(provided(in)[i])
+//@   loop 1:
+//@     invariant bounds: 0 <= $i && $i <= len(bin.Triangles) && bin != nil && bin.Triangles == provided(in) && len(bin.Triangles) > 0
+//@     invariant arrays: len(indices) == 3 * len(bin.Triangles) && len(position) == 3 * len(bin.Triangles) && len(normals) == 3 * len(bin.Triangles) &&
+//@                       fresh(indices) && fresh(position) && fresh(normals) && off(indices) == 0 && off(position) == 0 && off(normals) == 0 &&
+//@                       ref(position) != ref(normals)
+//@     invariant identity_indices: forall k int :: 0 <= k && k < 3 * $i ==> indices[k] == k
+//@     invariant positions: forall j int :: 0 <= j && j < $i ==>
+//@       position[3*j] == bin.Triangles[j].Vertex1.Float64() && position[3*j+1] == bin.Triangles[j].Vertex2.Float64() && position[3*j+2] == bin.Triangles[j].Vertex3.Float64()
+//@     invariant normals: forall j int :: 0 <= j && j < $i ==>
+//@       normals[3*j] == recordNormal(bin.Triangles[j]) && normals[3*j+1] == recordNormal(bin.Triangles[j]) && normals[3*j+2] == recordNormal(bin.Triangles[j])
+//@     invariant flag: normalExists <==> exists j int :: 0 <= j && j < $i && !bin.Triangles[j].Normal.Zero()
+
+// ---- round trip: a record written by WriteMesh and decoded by ReadMesh --------------------------------
+//@ lemma roundtrip_record(t Triangle, p1 vector3.Float64, p2 vector3.Float64, p3 vector3.Float64)
+//@   props C07
+//@   requires vecIs(t.Vertex1, p1) && vecIs(t.Vertex2, p2) && vecIs(t.Vertex3, p3)
+//@   ensures corner_positions_rounded_to_float32:
+//@       t.Vertex1.Float64().X() == f32(p1.X()) && t.Vertex1.Float64().Y() == f32(p1.Y()) && t.Vertex1.Float64().Z() == f32(p1.Z()) &&
+//@       t.Vertex2.Float64().X() == f32(p2.X()) && t.Vertex3.Float64().Z() == f32(p3.Z())
+//@   ensures stored_normal_is_returned: !t.Normal.Zero() ==> recordNormal(t) == t.Normal.Float64()
+//@   ensures geometric_normal_when_none_stored: t.Normal.Zero() ==> recordNormal(t) == flatNormal(t)
